@@ -515,8 +515,15 @@ class P(Prop):
 
     @staticmethod
     def snap_track(o):
+        noise = None
+        if o.hasAnalyticalFeature("obs_noise"):
+            try:
+                noise = [float(o["obs_noise", k]) for k in range(o.size())]
+            except BaseException as e:
+                if isinstance(e, KeyboardInterrupt):
+                    raise
         return {"pos": [[b.position.getX(), b.position.getY(), b.position.getZ()] for b in o],
-                "t": [str(b.timestamp) for b in o], "n": o.size(), "features": list(o.getListAnalyticalFeatures())}
+                "t": [str(b.timestamp) for b in o], "n": o.size(), "features": list(o.getListAnalyticalFeatures()), "noise": noise}
 
     def impl(self, case):
         """runs the whole session on ONE network / index and the same Track objects; output: per call, per track"""
@@ -529,8 +536,8 @@ class P(Prop):
         except BaseException as e:   # building the network / its index is a precondition, not the property
             if isinstance(e, KeyboardInterrupt):
                 raise
-            self._cache[key] = []
-            return {"invalid": "network or spatial index cannot be built: %s %s" % (err_kind(e), str(e)[:100])}
+            self._cache[key] = ([], None)
+            return {"invalid": "network or spatial index cannot be built: %s %s" % (err_kind(e), str(e)[:100]), "kind": err_kind(e)}
         net0 = self.net_state(net)
         tracks = []
         for ti, pts in enumerate(S["tracks"]):
@@ -616,12 +623,13 @@ class P(Prop):
                         after = self.snap_track(o)
                         touts.append({"ti": call["t"][j], "cand": c, "states": [[self.state_row(st) for st in L] for L in states],
                                       "idx": idx, "inf": inf, "pos_after": after["pos"], "t_after": after["t"], "n_after": after["n"],
-                                      "features": after["features"], "before": before[j], "nedges": net.getNumberOfEdges(), "geoms": geoms})
+                                      "features": after["features"], "noise_after": after["noise"], "before": before[j],
+                                      "nedges": net.getNumberOfEdges(), "geoms": geoms})
                     elif err and j == len(done):
                         states = snaps[j] if j < len(snaps) and snaps[j] is not None else (getattr(mp, "STATES", None) or [])
                         if j < len(snaps) and snaps[j] is None:
                             states = []
-                        t = {"ti": call["t"][j], "cand": c, "states": [[self.state_row(st) for st in L] for L in states]}
+                        t = {"ti": call["t"][j], "cand": c, "states": [[self.state_row(st) for st in L] for L in states], "before": before[j]}
                         t.update(err)
                         touts.append(t)
                 co = {"tracks": touts, "global_states_len": len(getattr(mp, "STATES", None) or []), "geoms": geoms}
@@ -634,22 +642,68 @@ class P(Prop):
             HMM.estimate = orig_est
             if saved is not None:
                 mp.STATES = saved
-        self._cache[key] = [(ci, t) for ci, co in enumerate(calls_out) for t in co["tracks"] if t["cand"]]
         out = {"calls": calls_out, "net": net0}
+        self._cache[key] = ([(ci, t) for ci, co in enumerate(calls_out) for t in co["tracks"] if t["cand"]], out)
         if calls_out and "err" in calls_out[-1]:
             out["err"] = calls_out[-1]["err"]
             out["detail"] = calls_out[-1].get("detail")
         return out
 
     # ------------------------------------------------------------------ model
+    @staticmethod
+    def idmaps(case):
+        """node ids and edge ids -> naturals, injectively (the dictionaries of Network only compare ids for equality)"""
+        nm, em = {}, {}
+        for e in case["edges"]:
+            for v in (e["s"], e["t"]):
+                nm.setdefault(str(v), len(nm))
+            em.setdefault(str(e["id"]), len(em))
+        return nm, em
+
+    def net_request(self, case, out):
+        """the whole scenario for `Model/MapMatchNet`: the addEdge sequence with the Node objects handed over, the moment the index
+        is built, its parameters, then every call that ran with, per track, its features / obs_noise column before the call and
+        the decoder's choice given as edge numbers"""
+        S = self.as_session(case)
+        nm, em = self.idmaps(case)
+        tab = (case.get("nodes") or {}) if case.get("via") == "table" else {}
+        pt = lambda p: "%s,%s" % (fbits(float(p[0])), fbits(float(p[1])))
+        es = []
+        for e in case["edges"]:
+            ca = tab.get(str(e["s"]), e["g"][0])
+            cb = tab.get(str(e["t"]), e["g"][-1])
+            es.append("%d:%d:%d:%d:%s:%s:%s" % (em[str(e["id"])], nm[str(e["s"])], nm[str(e["t"])], e.get("o", 0), pt(ca), pt(cb),
+                                              ";".join(pt(p) for p in e["g"])))
+        late = min(int(case.get("late", 1)), len(case["edges"]) - 1) if case.get("via") == "late" else 0
+        res = "none" if case["res"] is None else pt(case["res"])
+        calls = []
+        for ci, co in enumerate((out or {}).get("calls", [])):
+            call = S["calls"][ci]
+            ts = []
+            for t in co["tracks"]:
+                b = t["before"]
+                pts = S["tracks"][t["ti"]]
+                names = ",".join(b["features"]) or "_"
+                noise = ",".join(fbits(v) for v in b["noise"]) if b.get("noise") else "_"
+                if "err" in t or "inf" not in t or any(len(r) != 5 or r[0] == "?" for r in t["inf"]):
+                    ch = "x"
+                else:
+                    ch = ",".join(str(r[2]) for r in t["inf"]) or "_"
+                ts.append("%s~%s~%s~%s" % (names, noise, ";".join(pt(p) for p in pts) or "_", ch))
+            if not ts:
+                continue
+            one = bool(call.get("bare")) and len(call["t"]) == 1
+            calls.append("%s:%s:%s:%s" % (fbits(call["radius"]), fbits(call["noise"]), "one" if one else "many", "/".join(ts)))
+        return "C10.net %s %d %s %s%s" % ("|".join(es), late, res, fbits(case["margin"]), "".join(" " + c for c in calls))
+
     def requests(self, case):
         key = json.dumps(case, sort_keys=True)
         if key not in self._cache:
             self.impl(case)
         S = self.as_session(case)
         es = "|".join(";".join("%s,%s" % (fbits(p[0]), fbits(p[1])) for p in e["g"]) for e in case["edges"])
-        lines = []
-        for ci, t in self._cache[key]:
+        lines = [self.net_request(case, self._cache[key][1])]
+        for ci, t in self._cache[key][0]:
             cand, idx = t["cand"], t.get("idx")
             n = len(cand)
             track = S["tracks"][t["ti"]][:n]
@@ -684,10 +738,103 @@ class P(Prop):
         inf = self.parse_states(r[3]) if r[3] != "_" else None
         return {"states": states, "inf": inf}
 
+    NERR = {"Ezerodiv": "err:zerodiv", "Eunbound": "err:UnboundLocalError", "Eindex": "err:index", "Etype": "err:type", "Eexit": "err:exit",
+            "Enoindex": "err:AttributeError", "Eempty": "err:AnalyticalFeatureError"}
+
+    def decode_net(self, reply):
+        r = reply.split(" ")
+        if r[0].startswith("err:"):
+            return {"err": r[0]}
+        if r[0] != "ok":
+            raise ValueError(reply[:200])
+        fl = lambda tok: [bitsf(v) for v in tok.split(",")] if tok != "_" else []
+        geoms = [[fl(v) for v in g.split(";")] if g != "_" else [] for g in r[1].split("|")] if r[1] != "_" else []
+        curvs = [fl(c) for c in r[2].split("|")] if r[2] != "_" else []
+        nodes = [[int(a.split(",")[0]), bitsf(a.split(",")[1]), bitsf(a.split(",")[2])] for a in r[3].split(";")] if r[3] != "_" else []
+        ends = [[int(v) for v in a.split(",")] for a in r[4].split(";")] if r[4] != "_" else []
+        g = r[5].split(",")
+        grid = None if r[5] == "none" else [bitsf(g[0]), bitsf(g[1]), bitsf(g[2]), bitsf(g[3]), int(g[4]), int(g[5])]
+        calls = []
+        for tok in r[6:]:
+            ts = []
+            for t in tok.split("/"):
+                if t.startswith("E"):
+                    ts.append({"err": self.NERR.get(t, t)})
+                    continue
+                f = t.split("#")
+                ts.append({"states": [self.parse_states(x) for x in f[0].split("|")] if f[0] != "_" else [],
+                           "inf": self.parse_states(f[1]) if f[1] != "_" else None,
+                           "names": f[2].split(",") if f[2] != "_" else [], "noise": fl(f[3]),
+                           "pos": [fl(x) for x in f[4].split(";")] if f[4] != "_" else []})
+            calls.append(ts)
+        return {"geoms": geoms, "curv": curvs, "nodes": nodes, "ends": ends, "grid": grid, "calls": calls}
+
     def decode(self, case, replies):
-        return {"tracks": [self.decode_one(r) for r in replies]}
+        return {"net": self.decode_net(replies[0]), "tracks": [self.decode_one(r) for r in replies[1:]]}
+
+    def compare_net(self, case, impl_out, m):
+        """construction path, index and front end: `Model/MapMatchNet` against the real network / tracks"""
+        if "invalid" in impl_out:
+            if "err" not in m:
+                return "the network / index cannot be built (%s), the model builds it" % impl_out["invalid"]
+            return None if m["err"] == impl_out.get("kind") else "construction raised %s, model says %s" % (impl_out.get("kind"), m["err"])
+        if "err" in m:
+            return "the model's construction raises %s, the real one returned" % m["err"]
+        net = impl_out["net"]
+        nm, em = self.idmaps(case)
+        if m["geoms"] != net["geoms"]:
+            return "edge geometries in the network differ from the model's (addEdge stores the geometry as given): impl=%s model=%s" % (
+                json.dumps(net["geoms"])[:300], json.dumps(m["geoms"])[:300])
+        if not close(net["curv"], m["curv"], self.rel_tol):
+            return "abs_curv columns of the edge geometries differ: impl=%s model=%s" % (json.dumps(net["curv"])[:300], json.dumps(m["curv"])[:300])
+        if [[nm.get(a[0], -1), a[1], a[2]] for a in net["nodes"]] != m["nodes"]:
+            return "node table differs: impl=%s model=%s" % (json.dumps(net["nodes"])[:300], json.dumps(m["nodes"])[:300])
+        if [[nm.get(a, -1), nm.get(b, -1)] for a, b in net["ends"]] != m["ends"]:
+            return "edge ends differ: impl=%s model=%s" % (net["ends"], m["ends"])
+        if m["grid"] is None or not close(net["grid"][:4], m["grid"][:4], self.rel_tol) or net["grid"][4:] != m["grid"][4:]:
+            return "spatial index extent / dimensions differ: impl=%s model=%s" % (net["grid"], m["grid"])
+        cos = [co for co in impl_out["calls"] if co["tracks"]]
+        if len(cos) != len(m["calls"]):
+            return "%d calls ran, %d model calls" % (len(cos), len(m["calls"]))
+        key = lambda row: (row[2], row[0], row[1])
+        for ci, (co, mc) in enumerate(zip(cos, m["calls"])):
+            if len(mc) > len(co["tracks"]):
+                return "call %d: %d tracks, model %d" % (ci, len(co["tracks"]), len(mc))
+            for t, mt in zip(co["tracks"], mc):
+                where = "call %d, track %d (composed model): " % (ci, t["ti"])
+                if "err" in t or "err" in mt:
+                    if t.get("err") != mt.get("err") and t.get("err") in ("err:zerodiv", "err:UnboundLocalError", "err:index"):
+                        return where + "impl raised %s, model says %s" % (t.get("err"), mt.get("err", "no error"))
+                    if "err" in mt and "err" not in t:
+                        return where + "model raised %s, impl returned" % mt["err"]
+                    if "err" in mt:
+                        continue
+                # STATES[i] up to the order of the candidates (list(set) in Python)
+                ist = [sorted(L, key=key) for L in t["states"]]
+                mst = [sorted(L, key=key) for L in mt["states"]]
+                if "err" in t:
+                    ist = ist[:len(mst)]
+                    if len(mst) < len(t["states"]) - 1:
+                        return where + "model STATES shorter than the real ones"
+                    mst = mst[:len(ist)]
+                if not close(ist, mst, self.rel_tol):
+                    return where + "STATES differ as sets: impl=%s model=%s" % (json.dumps(ist)[:300], json.dumps(mst)[:300])
+                if "err" in t:
+                    continue
+                if mt["inf"] is None or not close(t["inf"], mt["inf"], self.rel_tol):
+                    return where + "hmm_inference differs: impl=%s model=%s" % (json.dumps(t["inf"])[:300], json.dumps(mt["inf"])[:300])
+                if sorted(t["features"]) != sorted(mt["names"]) or t["features"][:len(t["before"]["features"])] != mt["names"][:len(t["before"]["features"])]:
+                    return where + "feature names: impl=%s model=%s" % (t["features"], mt["names"])
+                if t.get("noise_after") is not None and not close(t["noise_after"], mt["noise"], self.rel_tol):
+                    return where + "obs_noise column: impl=%s model=%s" % (t["noise_after"], mt["noise"])
+                if [p[:2] for p in t["pos_after"]] != mt["pos"]:
+                    return where + "positions after the call: impl=%s model=%s" % (t["pos_after"][:4], mt["pos"][:4])
+        return None
 
     def compare(self, case, impl_out, model_out):
+        w = self.compare_net(case, impl_out, model_out["net"])
+        if w:
+            return w
         if "invalid" in impl_out:
             return None
         touts = [(ci, t) for ci, co in enumerate(impl_out["calls"]) for t in co["tracks"] if t["cand"]]
